@@ -28,7 +28,7 @@ RULE = ('each run = 20-40 validations of time locks on 1-3 simulated validators 
         'class, observed verdict)')
 REQUIRED_PROBES = ['t==c', 't==c-1', 't-now==thr', 't-now==thr-1', 'thr<=0',
                    'constraint_top_bit', 'encoding_len_9', 'step_between_reads',
-                   'mixed_slack_reads', 'fractional_now', 'empty_window', 'default_timestamp'] + \
+                   'mixed_slack_reads', 'fractional_now', 'empty_window', 'default_timestamp', 'session_cache_reused'] + \
     ['nested_' + n for n in ('if', 'else', 'call', 'eval', 'try', 'except', 'loop', 'scripthash')]
 
 KINDS = ['cts', 'ctsv', 'ce', 'cev', 'after', 'afterv', 'before', 'beforev',
@@ -89,7 +89,11 @@ def gen_step(rng: Rng, cell, vname, now_s, at_us, big):
             'via': rng.choice(['global', 'additional']), 'faults': [],
             'gthr': rng.choice([60, 0, 1, 10 ** 6]), 'gthr_e': rng.choice([60, 0, 1, 10 ** 6]),
             'nest': rng.choice(NESTS), 'dec': rng.chance(1, 4),
-            'spelling': rng.choice(['lower', 'lower', 'upper'])}
+            'spelling': rng.choice(['lower', 'lower', 'upper']),
+            # a session: the cache returned by this validator's previous run_script is
+            # handed to this one (with the new timestamp) -- nothing but the explicit
+            # timestamp may carry over from an earlier instant
+            'reuse_cache': rng.chance(1, 6)}
     if kind in ('ce', 'cev'):
         # constraint relative to clock and epoch threshold instead
         d = ds if ds != 'far' else rng.choice([-far, far])
@@ -261,11 +265,19 @@ def wrap(lock, nest, verify_form):
     raise ValueError(nest)
 
 
+SESSION = {}        # validator -> cache returned by its latest raw run (per run of the sim)
+
+
 def observe(step, lock, run):
     """Run the real code; returns 'ACCEPT' / 'REJECT' / 'BAD:<why>'."""
     k = step['kind']
     t = step['t']
     cache = {} if t is None else {'timestamp': t}
+    prev = SESSION.get(step['validator'])
+    if step.get('reuse_cache') and prev is not None and t is not None:
+        run.probe('session_cache_reused')
+        cache = {**prev, 'timestamp': t}
+        cache.pop('returned', None)
     if k in ('cts', 'ctsv', 'ce', 'cev'):
         flags = {}
         if step['via'] == 'additional':
@@ -279,9 +291,10 @@ def observe(step, lock, run):
         try:
             code = lock
             if t is None:       # really rely on the defaults: no cache argument at all
-                _, stack, _ = F.run_script(code, additional_flags=flags)
+                _, stack, out_cache = F.run_script(code, additional_flags=flags)
             else:
-                _, stack, _ = F.run_script(code, cache, additional_flags=flags)
+                _, stack, out_cache = F.run_script(code, cache, additional_flags=flags)
+            SESSION[step['validator']] = out_cache
         except ScriptExecutionError:
             return REJECT if k in ('ctsv', 'cev') else 'BAD:raised_ScriptExecutionError'
         except LIB_ERRORS as e:
@@ -399,6 +412,7 @@ def _cls(d):
 
 def execute(plan, run):
     reset_world(plan['run_seed'])
+    SESSION.clear()
     kn = plan['knobs']
     CLOCK.latency_us = kn['latency_us']
     for name in sorted(plan['validators']):
